@@ -155,7 +155,45 @@ def unresolvedStep (env : Env) (st : UnresolvedState) : ScopeEdge → Unresolved
 def unresolvedNamespacesSub (env : Env) (sub : Tree) : List Nat :=
   ((scopeTraverse [] sub).foldl (unresolvedStep env) { fs := FStack.new [], out := [] }).out
 
+/-! ### Whether `to_string(node)` finds a prefix for every name (xml_serializer.rs) -/
+
+def exceptIsOk {ε α : Type} : Except ε α → Bool
+  | .ok _ => true
+  | .error _ => false
+
+structure WritableState where
+  fs : FStack
+  ok : Bool
+  deriving Repr
+
+/-- `XmlSerializer::render_output` restricted to what can fail with `MissingPrefix`:
+    `StartTagOpen` pushes the declarations and needs `element_fullname`, every `Attribute`
+    needs `attribute_fullname`, `EndTag` pops. -/
+def writableStep (env : Env) (st : WritableState) : ScopeEdge → WritableState
+  | .start _ t =>
+    match t.value with
+    | .element name =>
+      let fs := st.fs.push t.nsDecls
+      let okE := exceptIsOk (fs.elementFullname env name)
+      let okA := (t.attrs.map (·.1)).all (fun n => exceptIsOk (fs.attributeFullname env n))
+      { fs := fs, ok := st.ok && okE && okA }
+    | _ => st
+  | .stop _ t =>
+    if t.value.isElement then { st with fs := st.fs.pop (hasNamespaceDeclarations t) } else st
+
+/-- The serialiser's name stack starts from `namespaces_in_scope(node)` (`XmlSerializer::new`). -/
+def namesWritableChain (env : Env) (chain : List Tree) (sub : Tree) : Bool :=
+  ((scopeTraverse [] sub).foldl (writableStep env)
+    { fs := FStack.new (namespacesInScopeChain chain), ok := true }).ok
+
 /-! ### Lifting to `Tree × Path` -/
+
+/-- `to_string(node)` does not fail with `MissingPrefix`. -/
+def namesWritable (env : Env) (t : Tree) (path : Path) : Option Bool :=
+  match t.ancestorsOrSelf path, t.at? path with
+  | some chain, some sub => some (namesWritableChain env chain sub)
+  | _, _ => none
+
 
 def isPrefixDefined (t : Tree) (path : Path) (p : Nat) : Option Bool :=
   (t.ancestorsOrSelf path).map (isPrefixDefinedChain · p)
